@@ -2,7 +2,7 @@
 From Coq Require Import Decimal DecimalN DecimalFacts.
 From Coq Require Import Ascii String.
 From Coq Require Import NArith ZArith Lia ZifyN ZifyBool Bool List Permutation Sorted.
-From Imdl Require Import Model.Bencode Proofs.BencodeProofs Model.Summary Model.SummarySpec.
+From Imdl Require Import Model.Bencode Model.BencodeWide Proofs.BencodeProofs Model.Summary Model.SummarySpec.
 Import ListNotations.
 Local Open Scope N_scope.
 
@@ -39,13 +39,13 @@ Lemma u64_mod_pos : 0 < u64_mod.
 Proof. reflexivity. Qed.
 
 Definition total_length (md : mode) : N :=
-  match md with Single n => n | Multiple fs => list_sum (map f_length fs) end.
+  match md with Single n _ => n | Multiple fs => list_sum (map f_length fs) end.
 
 (** accepted  =>  the debug fold does not overflow, the release fold does not wrap, both are the true sum *)
 Lemma content_size_exact md :
   content_size_fits md = true ->
   content_size_debug md = Some (total_length md) /\ content_size_release md = total_length md /\
-  (match md with Single _ => True | Multiple _ => total_length md < u64_mod end).
+  (match md with Single _ _ => True | Multiple _ => total_length md < u64_mod end).
 Proof.
   destruct md as [n|fs]; cbn [content_size_fits content_size_debug content_size_release total_length].
   - auto.
@@ -207,20 +207,10 @@ Section WithExternals.
     intros H; inversion H; subst. split; [reflexivity|]. apply N.eqb_eq. exact E.
   Qed.
 
-  Lemma as_file_raw v f :
-    as_file v = Some f -> raw_file_len v = f_length f /\ raw_file_path v = f_path f /\
-                          Forall (fun c => normal_component c = true) (f_path f).
+  Lemma as_path_raw pv p :
+    as_path pv = Some p -> raw_strs pv = p /\ Forall (fun c => normal_component c = true) p.
   Proof.
-    destruct v as [| | |d]; cbn [as_file]; try discriminate.
-    destruct (req (as_uint 63) k_length d) as [n|] eqn:En; [|discriminate].
-    destruct (req as_path k_path d) as [p|] eqn:Ep; [|discriminate].
-    destruct (opt as_md5 k_md5sum d); [|discriminate].
-    intros H; inversion H; subst; clear H. cbn [f_length f_path].
-    unfold raw_file_len, raw_file_path. cbn [top_of].
-    rewrite (req_uint_get _ _ _ _ En). cbn [nat_or_0].
-    destruct (req_inv _ _ _ _ Ep) as (pv & Elp & Fp). rewrite Elp.
-    unfold as_path in Fp. destruct pv; cbn [as_list] in Fp; try discriminate. cbn [raw_strs].
-    repeat split.
+    intros Fp. unfold as_path in Fp. destruct pv; cbn [as_list] in Fp; try discriminate. cbn [raw_strs]. split.
     - apply (map_opt_map as_component raw_str); [|exact Fp].
       intros a b F. unfold as_component in F. destruct (as_string a) as [s|] eqn:Es; [|discriminate].
       apply as_string_inv in Es. subst a. destruct (normal_component s); [|discriminate]. inversion F; reflexivity.
@@ -229,11 +219,39 @@ Section WithExternals.
       destruct (normal_component s) eqn:En'; [|discriminate]. inversion F; subst. exact En'.
   Qed.
 
+  Lemma as_file_raw v f :
+    as_file v = Some f -> raw_file_len v = f_length f /\ raw_file_path v = f_path f /\
+                          Forall (fun c => normal_component c = true) (f_path f).
+  Proof.
+    destruct v as [| |l|d]; cbn [as_file]; try discriminate.
+    - (* serde's sequence form *)
+      destruct l as [|lv [|pv rest]]; try discriminate.
+      destruct (as_uint 63 lv) as [n|] eqn:En; [|discriminate].
+      destruct (as_path pv) as [p|] eqn:Ep; [|discriminate].
+      destruct (as_uint_inv _ _ _ En) as (z & -> & -> & _).
+      destruct (as_path_raw _ _ Ep) as (Hp1 & Hp2).
+      assert (Hgoal : forall m, raw_file_len (Lst (Int z :: pv :: rest)) = f_length {| f_length := Z.to_N z; f_path := p; f_md5 := m |} /\
+                                raw_file_path (Lst (Int z :: pv :: rest)) = f_path {| f_length := Z.to_N z; f_path := p; f_md5 := m |} /\
+                                Forall (fun c => normal_component c = true) (f_path {| f_length := Z.to_N z; f_path := p; f_md5 := m |})).
+      { intros m. cbn [raw_file_len raw_file_path f_length f_path]. repeat split; assumption. }
+      destruct rest as [|mv [|x r]]; try discriminate.
+      + intros H; inversion H; subst; clear H. apply Hgoal.
+      + destruct (as_md5 mv); [|discriminate]. intros H; inversion H; subst; clear H. apply Hgoal.
+    - destruct (req (as_uint 63) k_length d) as [n|] eqn:En; [|discriminate].
+      destruct (req as_path k_path d) as [p|] eqn:Ep; [|discriminate].
+      destruct (opt as_md5 k_md5sum d); [|discriminate].
+      intros H; inversion H; subst; clear H. cbn [f_length f_path].
+      unfold raw_file_len, raw_file_path. cbn [top_of].
+      rewrite (req_uint_get _ _ _ _ En). cbn [nat_or_0].
+      destruct (req_inv _ _ _ _ Ep) as (pv & Elp & Fp). rewrite Elp.
+      destruct (as_path_raw _ _ Fp) as (Hp1 & Hp2). repeat split; assumption.
+  Qed.
+
   (** which reading of the file list the loader took, and that the file really contains it *)
   Lemma as_mode_inv i md :
     as_mode i = Some md ->
     match md with
-    | Single n => get_nat k_length i = Some n
+    | Single n _ => get_nat k_length i = Some n
     | Multiple fs =>
         exists l, lookup k_files i = Some (Lst l) /\ map raw_file_len l = map f_length fs /\
                   map raw_file_path l = map f_path fs /\
@@ -525,6 +543,7 @@ Section FilesRow.
   Proof.
     unfold show. destruct (decode (2 * List.length input + 2) input) as [[v rest]|] eqn:Ed; [|discriminate].
     destruct (decode_exact (2 * List.length input + 2)) as (Hx & _ & _). apply Hx in Ed.
+    destruct (depth v <=? max_depth); [|discriminate].
     unfold show_value. destruct (typed_of_value host_disp url_norm v) as [m|] eqn:Ht; [|discriminate].
     destruct (content_size_is_true_sum host_disp url_norm _ _ Ht) as (H1 & _ & _). rewrite H1.
     intros H; inversion H; subst j tab term; clear H.
